@@ -24,12 +24,13 @@ func ChildInit() { debug.SetMaxStack(MaxChildStack) }
 // Supervise runs the calling binary again as a child (args + "-child -skip N") and copies the child's output lines to
 // stdout.  The child announces every case before it runs it with a line {"begin":<id>,...}; announcements are not copied.
 // If the child dies (a fatal runtime error no recover() catches: stack overflow, out of memory) or stays silent for
-// 60 s, the announced case is reported through crashLine(announcement, "crash"|"timeout", detail) and the child is
-// restarted behind that case.  Returns the exit code for the supervisor.
+// 60 s in two runs, the announced case is reported through crashLine(announcement, "crash"|"timeout", detail) and the
+// child is restarted behind that case.  Returns the exit code for the supervisor.
 func Supervise(args []string, crashLine func(begin []byte, kind, detail string) []byte) int {
 	out := bufio.NewWriter(os.Stdout)
 	defer out.Flush()
 	skip := 0
+	retried := map[int]bool{}
 	for restarts := 0; restarts < 250; restarts++ {
 		cmd := exec.Command(os.Args[0], append(append([]string{}, args...), "-child", "-skip", strconv.Itoa(skip))...)
 		cmd.Env = os.Environ()
@@ -97,8 +98,14 @@ func Supervise(args []string, crashLine func(begin []byte, kind, detail string) 
 			fmt.Fprintf(os.Stderr, "supervised child failed outside any case: %v\n%s\n", werr, stderr.String())
 			return 3
 		}
+		if silent && !retried[curID] {
+			// a stall of the machine (the source importer runs `go list`) looks the same: run the case once more
+			retried[curID] = true
+			skip = curID - 1
+			continue
+		}
 		if silent {
-			out.Write(crashLine(cur, "timeout", "no answer within 60 s; the process was killed"))
+			out.Write(crashLine(cur, "timeout", "no answer within 60 s, twice; the process was killed"))
 		} else {
 			out.Write(crashLine(cur, "crash", crashSummary(werr, stderr.String())))
 		}
